@@ -258,6 +258,12 @@ class Session:
     return sorted([k, v] for k, v in by.items())
 
   def op_bind(self, op):
+    if op.get('_parse_enter'):
+      # the binding is made while some config scope is active: that must not matter
+      with contextlib.ExitStack() as stack:
+        for a in op['_parse_enter']:
+          stack.enter_context(self.gin.config_scope(self.scope_arg(a)))
+        return self.op_bind(dict(op, _parse_enter=None))
     gin = self.gin
     form = op.get('_form', 'tuple')
     scope, sel, arg = op['scope'], op['sel'], op['arg']
